@@ -539,7 +539,9 @@ Definition P_C14_gov_block (prev : snapshot) (b : blk) : bool :=
     forallb (λ hp : hash * option prop_view,
       match hp.2, sn_prop (k_snap b) hp.1 with
       | Some p0, Some p1 =>
-          if pv_frozen p0 then true else
+          (* open = still inside its voting window: a proposal whose window closed with the previous block is
+             frozen in this block from its previously committed version (InvGov), it is not "open" any more *)
+          if pv_frozen p0 || (pv_end p0 <? h_height (k_hdr b)) then true else
           let lost := foldr (λ v acc, (v.1.2 - slash_n ratio (count_occ_addr v.1.1 evi) v.1.2) + acc) 0 (pv_voters p0) in
           forallb (λ v0 : addr * Z * Z,
              let expect := slash_n ratio (count_occ_addr v0.1.1 evi) v0.1.2 in
